@@ -49,12 +49,13 @@ def realise(case, qenv):
   kw = dict(case["kw"])
   if kw.get("alpha") == qlattice.NP_ALPHA:
     kw["alpha"] = np.float32(2.0)
-  if kw.get("post_training_scale") == qlattice.PTS:
+  if kw.get("post_training_scale") in (qlattice.PTS, qlattice.PTS_X):
+    factor = 0.75 if kw["post_training_scale"] == qlattice.PTS_X else 1.0
     kw0 = {k: v for k, v in kw.items() if k != "post_training_scale"}
     q0 = qenv.build({"cls": case["cls"], "kw": kw0})
     from vf import qcompare
     qenv.call(q0, qcompare.probes(case["seed"])[1])
-    kw["post_training_scale"] = np.asarray(qenv.as_np(q0.scale), dtype=np.float32)
+    kw["post_training_scale"] = np.asarray(qenv.as_np(q0.scale), dtype=np.float32) * np.float32(factor)
   if kw.get("alpha") == qlattice.ARR_COL:
     kw["alpha"] = np.array([[1.0], [2.0], [0.5], [4.0], [1.0], [0.25]], dtype=np.float32)
   elif kw.get("alpha") == qlattice.ARR_ROW:
